@@ -5,6 +5,7 @@ package main
 // the top of escape.go (C05, C07, C08).
 
 import (
+	"strconv"
 	"fmt"
 	"go/ast"
 	"go/token"
@@ -380,6 +381,8 @@ func refTermsOf(v Val) []Term {
 		return []Term{r.T}
 	case VMapRef:
 		return []Term{r.T}
+	case VSub:
+		return []Term{r.Ref}
 	case VStruct:
 		var out []Term
 		for _, n := range r.Names {
@@ -936,7 +939,17 @@ func (e *Ev) evHeapGhost(name string, x *ast.CallExpr) (Val, bool) {
 			e.unsupp(x, "onlyobjects needs a post-state")
 		}
 		var refs []Term
-		for _, a := range x.Args {
+		keys := e.modKeys
+		args := x.Args
+		if len(args) > 0 {
+			// onlyobjects("KEY KEY ...", a, b): the statement restricted to the named locations
+			if bl, ok := args[0].(*ast.BasicLit); ok && bl.Kind == token.STRING {
+				ks, _ := strconv.Unquote(bl.Value)
+				keys = strings.Fields(ks)
+				args = args[1:]
+			}
+		}
+		for _, a := range args {
 			switch r := e.ev(a).(type) {
 			case VRef:
 				refs = append(refs, r.T)
@@ -947,11 +960,14 @@ func (e *Ev) evHeapGhost(name string, x *ast.CallExpr) (Val, bool) {
 			}
 		}
 		var cs []Term
-		for _, key := range e.modKeys {
+		for _, key := range keys {
 			if key == "$written" || key == "$alloc" {
 				continue
 			}
 			srt := e.fx.prog.heapKeySort(key)
+			if srt == "" {
+				e.unsupp(x, "onlyobjects names an unknown heap location %s", key)
+			}
 			cur := e.fx.hget(e.st, key, srt)
 			old := e.fx.hget(e.oldEv.st, key, srt)
 			if cur == old {
@@ -1013,46 +1029,86 @@ func (fx *FuncCtx) hgetScalar(st *State, key, sort string) Term {
 	return fx.heapInitial(key, sort)
 }
 
-func (x *Exec) havocHeapLoop(ls *loopSpec, head *State) {
-	// heap locations assigned in the loop body are havocked at the loop head
+func (x *Exec) havocHeapLoop(ls *loopSpec, head *State) map[string]bool {
+	// heap locations the loop body may write are havocked at the loop head. They are found
+	// syntactically: field assignments (every heap location whose last path component has the
+	// field's name, in any struct type of the loaded packages), composite literals (every field of
+	// the struct type), map stores, deletes and makes (the location families of that map kind),
+	// and the modifies clauses of the callees. loop() checks afterwards that the body wrote
+	// nothing else.
 	fx := x.fx
 	if head.heap == nil {
-		return
+		head.heap = map[string]Term{}
 	}
-	// conservative: every location written so far or named in callee modifies clauses inside the body
 	written := map[string]bool{}
 	allocs := false
+	mapKind := func(t types.Type) {
+		if t == nil {
+			return
+		}
+		if u, ok := t.Underlying().(*types.Map); ok {
+			if k, kind, ok := mapKinds(u); ok {
+				nm := mapKeyName(VMapRef{K: k, Kind: kind})
+				written["="+nm+"#dom"] = true
+				written["="+nm+"#val"] = true
+			}
+		}
+	}
 	for _, n := range ls.modNodes {
 		if n == nil {
 			continue
 		}
 		ast.Inspect(n, func(n ast.Node) bool {
 			switch s := n.(type) {
-			case *ast.CompositeLit:
-				allocs = true
-				if tv, ok := x.info.Types[s]; ok {
-					if n, ok := tv.Type.(*types.Named); ok {
-						if _, ok := n.Underlying().(*types.Struct); ok {
-							written["^"+qualifiedElem(n)+"."] = true
+			case *ast.UnaryExpr:
+				// &T{...} allocates a T and initialises its fields
+				if cl, ok := unparen(s.X).(*ast.CompositeLit); ok && s.Op == token.AND {
+					allocs = true
+					if tv, ok := x.info.Types[cl]; ok {
+						if n, ok := tv.Type.(*types.Named); ok {
+							if _, ok := n.Underlying().(*types.Struct); ok {
+								for _, k := range fx.prog.heapKeysOfElem(qualifiedElem(n)) {
+									written["="+k] = true
+								}
+							}
 						}
 					}
-					if _, ok := tv.Type.Underlying().(*types.Map); ok {
-						written["map"] = true
+				}
+			case *ast.CompositeLit:
+				if tv, ok := x.info.Types[s]; ok {
+					if _, isMap := tv.Type.Underlying().(*types.Map); isMap {
+						allocs = true
+						mapKind(tv.Type)
 					}
 				}
 			case *ast.AssignStmt:
 				for _, l := range s.Lhs {
-					if sel, ok := unparen(l).(*ast.SelectorExpr); ok {
-						written["."+sel.Sel.Name] = true
+					if sel, ok := unparen(l).(*ast.SelectorExpr); ok && x.throughPointer(sel.X) {
+						for _, k := range fx.prog.heapKeysOfSelector(x.info.TypeOf(sel.X), sel.Sel.Name) {
+							written["="+k] = true
+						}
 					}
-					if _, ok := unparen(l).(*ast.IndexExpr); ok {
-						written["map"] = true
+					if ix, ok := unparen(l).(*ast.IndexExpr); ok {
+						mapKind(x.info.TypeOf(ix.X))
+					}
+				}
+			case *ast.IncDecStmt:
+				if sel, ok := unparen(s.X).(*ast.SelectorExpr); ok && x.throughPointer(sel.X) {
+					for _, k := range fx.prog.heapKeysOfSelector(x.info.TypeOf(sel.X), sel.Sel.Name) {
+						written["="+k] = true
 					}
 				}
 			case *ast.CallExpr:
-				if id, ok := unparen(s.Fun).(*ast.Ident); ok && (id.Name == "make" || id.Name == "new") {
-					allocs = true
-					written["map"] = true
+				if id, ok := unparen(s.Fun).(*ast.Ident); ok {
+					switch id.Name {
+					case "make", "new":
+						allocs = true
+						mapKind(x.info.TypeOf(s))
+					case "delete":
+						if len(s.Args) == 2 {
+							mapKind(x.info.TypeOf(s.Args[0]))
+						}
+					}
 				}
 				if fn := calleeOf(s, x.info); fn != nil {
 					if con := fx.prog.spec.Contracts[funcKey(fn)]; con != nil {
@@ -1061,6 +1117,18 @@ func (x *Exec) havocHeapLoop(ls *loopSpec, head *State) {
 						}
 						if con.Options["allocates"] == "true" {
 							allocs = true
+						}
+						if con.Options["locks"] != "" {
+							for _, k := range fx.prog.heapKeysOfField("held") {
+								written["="+k] = true
+							}
+						}
+					}
+					if fn.Pkg() != nil && fn.Pkg().Path() == "sync" {
+						for k := range fx.heapSort {
+							if strings.HasSuffix(k, ".held") {
+								written["="+k] = true
+							}
 						}
 					}
 				}
@@ -1074,21 +1142,167 @@ func (x *Exec) havocHeapLoop(ls *loopSpec, head *State) {
 		fx.emit("(assert (<= " + a + " " + na + "))")
 		head.heap["$alloc"] = na
 	}
-	for key := range fx.heapSort {
-		hit := written["="+key]
-		for w := range written {
-			if strings.HasPrefix(w, ".") && strings.HasSuffix(strings.SplitN(key, "#", 2)[0], w) {
-				hit = true
+	var keys []string
+	for w := range written {
+		if strings.HasPrefix(w, "=") && w != "=$alloc" {
+			keys = append(keys, w[1:])
+		}
+	}
+	sort.Strings(keys)
+	havocked := map[string]bool{}
+	for _, key := range keys {
+		srt := fx.heapSort[key]
+		if srt == "" {
+			srt = fx.prog.heapKeySort(key)
+			if srt == "" {
+				continue
 			}
-			if w == "map" && strings.HasPrefix(key, "map[") {
-				hit = true
-			}
-			if strings.HasPrefix(w, "^") && strings.HasPrefix(key, w[1:]) {
-				hit = true
+			fx.heapInitial(key, srt)
+		}
+		if key == "$written" {
+			head.heap[key] = fx.declare(srt, "hl_written")
+			havocked[key] = true
+			continue
+		}
+		fx.hset(head, key, fx.declare(srt, "hl_"+sanitizeIdent(key)))
+		havocked[key] = true
+	}
+	return havocked
+}
+
+// throughPointer reports whether a selector base reaches its object through a pointer (then a
+// field write lands in the heap; otherwise it updates a struct-valued variable).
+func (x *Exec) throughPointer(e ast.Expr) bool {
+	for {
+		e = unparen(e)
+		if t := x.info.TypeOf(e); t != nil {
+			if _, ok := t.Underlying().(*types.Pointer); ok {
+				return true
 			}
 		}
-		if hit && key != "$alloc" {
-			fx.hset(head, key, fx.declare(fx.heapSort[key], "hl_"+sanitizeIdent(key)))
+		switch v := e.(type) {
+		case *ast.SelectorExpr:
+			e = v.X
+		case *ast.StarExpr, *ast.IndexExpr, *ast.CallExpr:
+			return true
+		default:
+			return false
+		}
+	}
+}
+
+// heapKeysOfField lists the heap locations (struct type, field path, and the three parts of a
+// string-valued field) whose last path component is the given field name, over the struct types
+// of the repository's packages, text/template and text/template/parse.
+func (p *Prog) heapKeysOfField(field string) []string {
+	p.heapKeyOnce.Do(p.buildHeapKeyIndex)
+	return p.heapKeysByField[field]
+}
+
+// heapKeysOfSelector: the locations a write to x.field may touch, given the static type of x: the
+// field of that struct type, wherever objects of the type live (on their own or by value inside
+// another struct). Falls back to every field of that name when the type is not a named struct.
+func (p *Prog) heapKeysOfSelector(t types.Type, field string) []string {
+	p.heapKeyOnce.Do(p.buildHeapKeyIndex)
+	if t != nil {
+		if pt, ok := t.Underlying().(*types.Pointer); ok {
+			t = pt.Elem()
+		}
+		if n, ok := t.(*types.Named); ok {
+			if _, ok := n.Underlying().(*types.Struct); ok {
+				if ks, ok := p.heapKeysByField[qualifiedElem(n)+"/"+field]; ok {
+					return ks
+				}
+				// promoted field of an embedded struct: fall through
+			}
+		}
+	}
+	return p.heapKeysByField[field]
+}
+
+func (p *Prog) heapKeysOfElem(elem string) []string {
+	p.heapKeyOnce.Do(p.buildHeapKeyIndex)
+	return p.heapKeysByElem[elem]
+}
+
+func (p *Prog) buildHeapKeyIndex() {
+	p.heapKeysByField = map[string][]string{}
+	p.heapKeysByElem = map[string][]string{}
+	seen := map[string]bool{}
+	add := func(elem, path string, t types.Type, container string) {
+		last := path
+		if k := strings.LastIndex(path, "."); k >= 0 {
+			last = path[k+1:]
+		}
+		var ks []string
+		base := elem + "." + path
+		isStr := false
+		switch u := t.Underlying().(type) {
+		case *types.Basic:
+			isStr = u.Info()&types.IsString != 0
+		case *types.Slice:
+			isStr = isByteSlice(t)
+		}
+		if isStr {
+			ks = []string{base + "#b", base + "#o", base + "#l"}
+		} else {
+			ks = []string{base}
+		}
+		if n, ok := t.(*types.Named); ok && n.Obj().Pkg() != nil && n.Obj().Pkg().Path() == "sync" {
+			ks = []string{base + ".held"}
+			last = "held"
+		}
+		for _, k := range ks {
+			if seen[k] || p.heapKeySort(k) == "" {
+				continue
+			}
+			seen[k] = true
+			p.heapKeysByField[last] = append(p.heapKeysByField[last], k)
+			p.heapKeysByField[container+"/"+last] = append(p.heapKeysByField[container+"/"+last], k)
+			p.heapKeysByElem[elem] = append(p.heapKeysByElem[elem], k)
+		}
+	}
+	var walk func(elem, prefix string, st *types.Struct, depth int, container string)
+	walk = func(elem, prefix string, st *types.Struct, depth int, container string) {
+		for i := 0; i < st.NumFields(); i++ {
+			f := st.Field(i)
+			path := f.Name()
+			if prefix != "" {
+				path = prefix + "." + f.Name()
+			}
+			add(elem, path, f.Type(), container)
+			if sub, ok := f.Type().Underlying().(*types.Struct); ok && depth < 3 {
+				n, isN := f.Type().(*types.Named)
+				if !isN || n.Obj().Pkg() == nil || n.Obj().Pkg().Path() != "sync" {
+					c := container + "." + f.Name()
+					if isN {
+						c = qualifiedElem(n)
+					}
+					walk(elem, path, sub, depth+1, c)
+				}
+			}
+		}
+	}
+	for _, tp := range p.allTypes {
+		switch tp.Path() {
+		case modPath, modPath + "/template", "text/template", "text/template/parse":
+		default:
+			continue
+		}
+		for _, name := range tp.Scope().Names() {
+			tn, ok := tp.Scope().Lookup(name).(*types.TypeName)
+			if !ok {
+				continue
+			}
+			n, ok := tn.Type().(*types.Named)
+			if !ok {
+				continue
+			}
+			st, ok := n.Underlying().(*types.Struct)
+			if !ok {
+				continue
+			}
+			walk(qualifiedElem(n), "", st, 0, qualifiedElem(n))
 		}
 	}
 }
